@@ -15,5 +15,3 @@ Lemma save_cfg_accepts :
   accepts (c_fset save_cfg) 40 = true /\ accepts (c_dset save_cfg) max_precision = true.
 Proof. vm_compute. repeat split; reflexivity. Qed.
 
-Lemma ue14_3x2_in_range : In UE14 all_types /\ In (3, 2) (dims_upto 4) /\ dims_fit UE14 3 2 = true.
-Proof. vm_compute. repeat split; auto 20. Qed.
